@@ -512,6 +512,11 @@ TYPEOF_PRE = ('extern const int tc_i; extern volatile int tv_i; extern const vol
               'extern const struct S tc_s;\n')
 
 
+# typeof_unqual is C23 and unknown to the witnesses (gcc 12, clang 14): for a disagreement about typeof_unqual(X) the witnesses are asked
+# about the sibling typeof(X) (the operand has the qualified type the reference model believes); removing the qualifiers is the definition
+UNQUAL_SIBLING = {}
+
+
 def typeof_cases():
     """(text with k%d, expected) for typeof / typeof_unqual"""
     out = []
@@ -522,22 +527,35 @@ def typeof_cases():
             for qs in QSETS:
                 want = int(set(qs) == (set(q) if keep else set()))
                 out.append((kw, name, 'int k%%d = __builtin_types_compatible_p(%s(%s) *, %s);' % (kw, name, M.cname(M.Ptr(M.qualify(t, qs)))), want))
+                if not keep:
+                    UNQUAL_SIBLING[out[-1][2] % 0] = '_Static_assert(__builtin_types_compatible_p(typeof(%s) *, %s), "");' % (name, M.cname(M.Ptr(M.qualify(t, q))))
             # of an rvalue: never qualified
             if t != REC_S:
                 rv = '+' + name if M.is_integer(t) else '(0, %s)' % name
                 for qs in QSETS:
                     out.append((kw + '-rvalue', name, 'int k%%d = __builtin_types_compatible_p(%s(%s) *, %s);' % (kw, rv, M.cname(M.Ptr(M.qualify(t, qs)))), int(qs == ())))
+                    if not keep:
+                        UNQUAL_SIBLING[out[-1][2] % 0] = '_Static_assert(__builtin_types_compatible_p(typeof(%s) *, %s), "");' % (rv, M.cname(M.Ptr(t)))
     # arrays and functions are not decayed by typeof
     out.append(('typeof', 'arr', 'int k%d = sizeof(typeof(arr)) == 16 && __builtin_types_compatible_p(typeof(arr), int[4]);', 1))
     out.append(('typeof', 'arr', 'int k%d = __builtin_types_compatible_p(typeof(arr), int *);', 0))
     out.append(('typeof', 'ta_', 'int k%d = __builtin_types_compatible_p(typeof(ta_), const int[3]);', 1))
     out.append(('typeof', 'ta_', 'int k%d = __builtin_types_compatible_p(typeof(ta_) *, int (*)[3]);', 0))
     out.append(('typeof_unqual', 'ta_', 'int k%d = __builtin_types_compatible_p(typeof_unqual(ta_) *, int (*)[3]);', 1))
+    UNQUAL_SIBLING[out[-1][2] % 0] = '_Static_assert(__builtin_types_compatible_p(typeof(ta_) *, const int (*)[3]), "");'
     out.append(('typeof', 'fn', 'int k%d = __builtin_types_compatible_p(typeof(fn), int(void));', 1))
     out.append(('typeof', 'fn', 'int k%d = __builtin_types_compatible_p(typeof(fn) *, int (*)(void));', 1))
     out.append(('typeof', 'fn', 'int k%d = __builtin_types_compatible_p(typeof(&fn), int (*)(void));', 1))
     out.append(('typeof', 'type', 'int k%d = __builtin_types_compatible_p(typeof(const int) *, const int *);', 1))
     out.append(('typeof_unqual', 'type', 'int k%d = __builtin_types_compatible_p(typeof_unqual(const int) *, int *);', 1))
+    UNQUAL_SIBLING[out[-1][2] % 0] = '_Static_assert(__builtin_types_compatible_p(typeof(const int) *, const int *), "");'
+    for tn, un in (('volatile long', 'long'), ('const volatile char', 'char'), ('int *const', 'int *'), ('const int *', 'const int *'), ('const struct S', 'struct S'),
+                   ('_Atomic int', 'int'), ('int', 'int'), ('const unsigned short', 'unsigned short')):
+        for cmp_, want in ((un, 1), (tn, int(tn == un))):
+            if tn.startswith('_Atomic'):
+                continue
+            out.append(('typeof_unqual', 'type', 'int k%%d = __builtin_types_compatible_p(typeof_unqual(%s) *, %s *);' % (tn, cmp_), want))
+            UNQUAL_SIBLING[out[-1][2] % 0] = '_Static_assert(__builtin_types_compatible_p(typeof(%s) *, %s *), "");' % (tn, tn)
     out.append(('typeof', 'expr', 'int k%d = __builtin_types_compatible_p(typeof(x_char + x_char), int);', 1))
     out.append(('typeof', 'expr', 'int k%d = __builtin_types_compatible_p(typeof(x_uint + x_long), long);', 1))
     out.append(('typeof', 'expr', 'int k%d = __builtin_types_compatible_p(typeof(1 ? p_i : p_v), void *);', 1))
@@ -1034,6 +1052,9 @@ def main(chk):
                 rej_recs.append(r)
                 continue
             line = re.sub(r'^int k0 = (.*);$', lambda m: '_Static_assert((%s) == %d, "");' % (m.group(1), want), text)
+            if 'typeof_unqual(' in text:
+                typeof_cases()
+                line = UNQUAL_SIBLING.get(text, line)
             ext = ''
         elif r['expected'] is None:
             rej_jobs.append((None, 'int k = _Generic(%s, default: 0);\n' % r['expr'], r['ext'], pre))
